@@ -87,7 +87,10 @@ def gen(tier, rng):
         sig_pairs = [(I32, I32), (U32, I32), (I64, U64), (U8, U8), (I8, U8), (I16, I64), (U64, U64), (I32, U32)]
     if tier == "quick":
         extra = [(p, q) for p in ALL64 for q in ALL64 if (p, q) not in pairs]
-        pairs = pairs + common.sample(rng, extra, 4)
+        sampled_pairs = common.sample(rng, extra, 4)      # seed-dependent part of the matrix
+        pairs = pairs + sampled_pairs
+    else:
+        sampled_pairs = []
     for tag in ("sat", "thr", "trap"):
         plist = pairs if tag == "sat" else sig_pairs
         for (A, B) in plist:
@@ -157,6 +160,10 @@ def gen(tier, rng):
                 for nm, body in (forms if tag == "sat" else forms[:2]):
                     L.append(Line("clang/%s/%s/%s->%s" % (tag, nm, S.short, D.short), S, D, body, "return (%s)a;" % D.name, zones_for(lambda a: a, S, D, 1), tag=tag, exact=(lambda a: a),
                                   meta=dict(op="convert", A=S.short, B=D.short)))
+    sp = set((a.short, b.short) for a, b in sampled_pairs)
+    for ln in L:
+        if ln.meta.get("op") in ("+", "-", "*", "/") and (ln.meta.get("A"), ln.meta.get("B")) in sp:
+            ln.meta["sampled"] = True
     return L
 
 
@@ -232,7 +239,7 @@ def run(tier, seed, work):
                 fk = "%s/%s/%s%s/%s/%s" % (ln.cfg, ln.meta.get("op"), sg(ln.meta.get("A")), sg(ln.meta.get("B")), ln.tag, code)
                 r.violation(ln.key + "#" + code, "%s: `%s`: %s" % (ln.key, ln.cnl, "; ".join(texts[:2])),
                             {"key": ln.key, "cnl": ln.cnl, "ref": ln.ref, "cfg": ln.cfg, "code": code, "details": texts, "gated": getattr(ln, "gk", None), "ir": getattr(ln, "ir", None), "meta": ln.meta, "finding_key": fk},
-                            finding_key=fk)
+                            finding_key=fk, sampled=bool(ln.meta.get("sampled")))
         elif ln.verdict == "broken":
             r.broke("%s: %s" % (ln.key, [t for _, t in ln.details[:1]]))
     common.floor_check(r, "lines decided (proved or refuted)", cnt["proved"] + cnt["refuted"], FLOOR[tier])
